@@ -12,11 +12,11 @@ import (
 	"encoding/json"
 	"fmt"
 	"os"
-	"runtime/pprof"
 	"sort"
 	"strconv"
 	"strings"
 	"sync"
+	"sync/atomic"
 	"time"
 
 	"github.com/andres-erbsen/clock"
@@ -150,11 +150,27 @@ type sys struct {
 	randOdd  bool
 	drawn    []int
 
-	cls uint32
-	obs string
+	cls      uint32
+	obs      string
+	obsValid bool
+
+	n    int     // operations applied so far
+	srch *search // shared per-search bookkeeping (nil in replay mode)
 }
 
-func newSys(cfg config) (*sys, error) {
+// search is shared by all systems of one BFS. maxLen is the longest history
+// whose last step has been fully checked so far: the BFS is level-synchronous
+// and builds every successor by replaying a history all of whose prefixes were
+// checked as the last step of an earlier expansion, so the (expensive) report
+// comparison is skipped for steps strictly below maxLen -- they are exact
+// repetitions of already checked deterministic steps. The cheap reservation
+// clauses are evaluated on every step regardless.
+type search struct {
+	maxLen atomic.Int64
+	sink   *classSink
+}
+
+func newSys(cfg config, srch *search) (*sys, error) {
 	clk := &fclock{Clock: clock.New(), t: epoch}
 	m, err := piecerequest.NewManager(clk, timeout, cfg.policy, cfg.limits[0], cfg.limits[1])
 	if err != nil {
@@ -164,7 +180,7 @@ func newSys(cfg config) (*sys, error) {
 	for i := 0; i < cfg.pieces; i++ {
 		cs.Set(i, cfg.prio[i])
 	}
-	return &sys{cfg: cfg, clk: clk, m: m, counters: cs, tombs: map[[2]int]string{}}, nil
+	return &sys{cfg: cfg, clk: clk, m: m, counters: cs, tombs: map[[2]int]string{}, srch: srch}, nil
 }
 
 func (s *sys) Close() {}
@@ -311,6 +327,12 @@ func (s *sys) Apply(op string) (err error) {
 		}
 	}()
 	s.cls = 0
+	s.n++
+	check := s.srch == nil || int64(s.n) >= s.srch.maxLen.Load()
+	pre := ""
+	if check && s.srch != nil {
+		pre = s.modelString()
+	}
 	switch f[0] {
 	case "R":
 		if len(f) < 4 {
@@ -425,7 +447,23 @@ func (s *sys) Apply(op string) (err error) {
 		s.now += d
 		s.clk.t = epoch.Add(s.now)
 	}
-	return s.invariants(kind)
+	if !check {
+		s.obsValid = false
+		return nil
+	}
+	err = s.invariants(kind)
+	if s.srch != nil {
+		if s.cls != 0 {
+			s.srch.sink.put(pre+"#"+op, s.cls)
+		}
+		for {
+			cur := s.srch.maxLen.Load()
+			if int64(s.n) <= cur || s.srch.maxLen.CompareAndSwap(cur, int64(s.n)) {
+				break
+			}
+		}
+	}
+	return err
 }
 
 func (s *sys) reserve(peer, mask int, endgame bool) error {
@@ -518,7 +556,10 @@ func (s *sys) reserve(peer, mask int, endgame bool) error {
 	return nil
 }
 
-type fkey struct{ piece, peer int }
+const (
+	maxPieces = 4
+	maxPeers  = 4
+)
 
 func statusName(st piecerequest.Status) string {
 	switch st {
@@ -539,95 +580,94 @@ func statusName(st piecerequest.Status) string {
 // goes into the state key.
 func (s *sys) invariants(kind string) error {
 	after := " (after " + kind + ")"
-	var ob strings.Builder
+	ob := make([]byte, 0, 96)
 	defer func() { s.clk.t = epoch.Add(s.now) }()
-	for _, off := range lookahead {
+	for oi, off := range lookahead {
 		at := s.now + off
 		s.clk.t = epoch.Add(at)
 		failed := s.m.GetFailedRequests()
-		when := ""
-		if off > 0 {
-			when = fmt.Sprintf(" [report as read %v later with no further calls]", off)
-		}
-		real := map[fkey][]piecerequest.Status{}
-		var lines []string
-		for _, r := range failed {
-			pk := peerIdx(r.PeerID, s.cfg.peers)
-			k := fkey{r.Piece, pk}
-			real[k] = append(real[k], r.Status)
-			lines = append(lines, fmt.Sprintf("%d%s%d", r.Piece, peerName(pk), int(r.Status)))
-		}
-		sort.Strings(lines)
-		fmt.Fprintf(&ob, "F%d=%s;", int(off/time.Second), strings.Join(lines, ","))
-		mFailed := map[fkey]int{}
-		mPending := map[fkey]int{}
-		allowed := map[fkey]map[piecerequest.Status]bool{}
-		for _, r := range s.reqs {
-			k := fkey{r.piece, r.peer}
-			if r.marks == 0 && !r.expired(at) {
-				mPending[k]++
-				continue
-			}
-			mFailed[k]++
-			if allowed[k] == nil {
-				allowed[k] = map[piecerequest.Status]bool{}
-			}
-			if r.expired(at) {
-				allowed[k][piecerequest.StatusExpired] = true
-			}
-			if r.marks&1 != 0 {
-				allowed[k][piecerequest.StatusUnsent] = true
-			}
-			if r.marks&2 != 0 {
-				allowed[k][piecerequest.StatusInvalid] = true
-			}
-		}
+		var cnt [maxPieces][maxPeers][4]uint8
+		var rc, mf, mp [maxPieces][maxPeers]int
+		var allowed [maxPieces][maxPeers]uint8
 		desc := func() string {
+			var lines []string
+			for _, r := range failed {
+				pn := "?"
+				if pk := peerIdx(r.PeerID, s.cfg.peers); pk >= 0 {
+					pn = peerName(pk)
+				}
+				lines = append(lines, fmt.Sprintf("%d%s:%s", r.Piece, pn, statusName(r.Status)))
+			}
+			sort.Strings(lines)
+			when := ""
+			if off > 0 {
+				when = fmt.Sprintf(" [report as read %v later with no further calls]", off)
+			}
 			return fmt.Sprintf("failed report=%v%s; model booked: %s", lines, when, s.modelStringAt(at))
 		}
-		// deterministic iteration
-		var keys []fkey
-		for k := range real {
-			keys = append(keys, k)
+		for _, r := range failed {
+			pk := peerIdx(r.PeerID, s.cfg.peers)
+			if pk < 0 || r.Piece < 0 || r.Piece >= s.cfg.pieces {
+				return bfs.Failf("failed report lists a request of an unknown peer or piece"+after, "%s", desc())
+			}
+			if r.Status < 0 || r.Status > 3 {
+				return bfs.Failf("failed report carries a status that does not apply to the request"+after, "%s", desc())
+			}
+			cnt[r.Piece][pk][r.Status]++
+			rc[r.Piece][pk]++
 		}
-		for k := range mFailed {
-			if _, ok := real[k]; !ok {
-				keys = append(keys, k)
+		ob = append(ob, 'F', byte('0'+oi), '=')
+		for i := 0; i < s.cfg.pieces; i++ {
+			for p := 0; p < s.cfg.peers; p++ {
+				for st := 0; st < 4; st++ {
+					if c := cnt[i][p][st]; c > 0 {
+						ob = append(ob, byte('0'+i), byte('p'+p), byte('0'+st), 'x', byte('0'+c), ',')
+					}
+				}
 			}
 		}
-		sort.Slice(keys, func(a, b int) bool {
-			if keys[a].piece != keys[b].piece {
-				return keys[a].piece < keys[b].piece
+		ob = append(ob, ';')
+		for _, r := range s.reqs {
+			if r.marks == 0 && !r.expired(at) {
+				mp[r.piece][r.peer]++
+				continue
 			}
-			return keys[a].peer < keys[b].peer
-		})
-		for _, k := range keys {
-			rc, mf, mp := len(real[k]), mFailed[k], mPending[k]
-			who := fmt.Sprintf("piece %d peer %s: reported %d, model failed %d / outstanding %d", k.piece, peerName(k.peer), rc, mf, mp)
-			switch {
-			case k.peer < 0:
-				return bfs.Failf("failed report lists a request of an unknown peer"+after, "%s; %s", who, desc())
-			case rc > mf+mp:
-				switch s.tombs[[2]int{k.piece, k.peer}] {
-				case "ClearPeer":
-					return bfs.Failf("request of a removed peer is reported as failed"+after, "%s; %s", who, desc())
-				case "Clear":
-					return bfs.Failf("request of a cleared piece is reported as failed"+after, "%s; %s", who, desc())
-				}
-				if mf+mp > 0 {
-					// the pair is booked, but fewer times than reported: the
-					// surplus comes from an earlier removal of the same pair
-					return bfs.Failf("failed report lists a request more often than it is booked"+after, "%s; %s", who, desc())
-				}
-				return bfs.Failf("failed report lists a request that was never made"+after, "%s; %s", who, desc())
-			case rc > mf:
-				return bfs.Failf("failed report lists a request that neither expired nor was marked unsent/invalid"+after, "%s; %s", who, desc())
-			case rc < mf:
-				return bfs.Failf("failed report misses a request that expired or was marked unsent/invalid"+after, "%s; %s", who, desc())
+			mf[r.piece][r.peer]++
+			if r.expired(at) {
+				allowed[r.piece][r.peer] |= 1 << uint(piecerequest.StatusExpired)
 			}
-			for _, st := range real[k] {
-				if st == piecerequest.StatusPending || !allowed[k][st] {
-					return bfs.Failf("failed report carries a status that does not apply to the request"+after, "%s status %s; %s", who, statusName(st), desc())
+			if r.marks&1 != 0 {
+				allowed[r.piece][r.peer] |= 1 << uint(piecerequest.StatusUnsent)
+			}
+			if r.marks&2 != 0 {
+				allowed[r.piece][r.peer] |= 1 << uint(piecerequest.StatusInvalid)
+			}
+		}
+		for i := 0; i < s.cfg.pieces; i++ {
+			for p := 0; p < s.cfg.peers; p++ {
+				r, f, o := rc[i][p], mf[i][p], mp[i][p]
+				if r == f && (r == 0 || statusesAllowed(cnt[i][p], allowed[i][p])) {
+					continue
+				}
+				who := fmt.Sprintf("piece %d peer %s: reported %d, model failed %d / outstanding %d", i, peerName(p), r, f, o)
+				switch {
+				case r > f+o:
+					switch s.tombs[[2]int{i, p}] {
+					case "ClearPeer":
+						return bfs.Failf("request of a removed peer is reported as failed"+after, "%s; %s", who, desc())
+					case "Clear":
+						return bfs.Failf("request of a cleared piece is reported as failed"+after, "%s; %s", who, desc())
+					}
+					if f+o > 0 {
+						return bfs.Failf("failed report lists a request more often than it is booked"+after, "%s; %s", who, desc())
+					}
+					return bfs.Failf("failed report lists a request that was never made"+after, "%s; %s", who, desc())
+				case r > f:
+					return bfs.Failf("failed report lists a request that neither expired nor was marked unsent/invalid"+after, "%s; %s", who, desc())
+				case r < f:
+					return bfs.Failf("failed report misses a request that expired or was marked unsent/invalid"+after, "%s; %s", who, desc())
+				default:
+					return bfs.Failf("failed report carries a status that does not apply to the request"+after, "%s; %s", who, desc())
 				}
 			}
 		}
@@ -635,8 +675,10 @@ func (s *sys) invariants(kind string) error {
 	// pending report (independent of the clock)
 	for p := 0; p < s.cfg.peers; p++ {
 		pend := s.m.PendingPieces(peerID(p))
-		fmt.Fprintf(&ob, "P%s=%v;", peerName(p), pend)
+		ob = append(ob, 'P', byte('p'+p), '=')
 		for _, i := range pend {
+			ob = strconv.AppendInt(ob, int64(i), 10)
+			ob = append(ob, ',')
 			if s.hasLive(p, i) {
 				continue
 			}
@@ -649,9 +691,23 @@ func (s *sys) invariants(kind string) error {
 			}
 			return bfs.Failf("pending report lists a request that was never made"+after, "piece %d: %s", i, d)
 		}
+		ob = append(ob, ';')
 	}
-	s.obs = ob.String()
+	s.obs = string(ob)
+	s.obsValid = true
 	return nil
+}
+
+// statusesAllowed: no entry is reported as pending, and every reported status
+// is one that applies to some failed request of the pair (expired if one
+// expired, unsent/invalid if one was marked so).
+func statusesAllowed(cnt [4]uint8, allowed uint8) bool {
+	for st := 0; st < 4; st++ {
+		if cnt[st] > 0 && (st == int(piecerequest.StatusPending) || allowed&(1<<uint(st)) == 0) {
+			return false
+		}
+	}
+	return true
 }
 
 func (s *sys) modelString() string { return s.modelStringAt(s.now) }
@@ -659,52 +715,39 @@ func (s *sys) modelString() string { return s.modelStringAt(s.now) }
 // modelStringAt renders the booked requests canonically (ages are capped: all
 // expired requests behave alike).
 func (s *sys) modelStringAt(at time.Duration) string {
-	var l []string
+	l := make([]string, 0, len(s.reqs))
 	for _, r := range s.reqs {
-		age := "x"
-		if !r.expired(at) {
-			age = strconv.Itoa(int((at - r.sent) / time.Second))
+		var b [12]byte
+		e := b[:0]
+		e = append(e, byte('0'+r.piece), byte('p'+r.peer), '@')
+		if r.expired(at) {
+			e = append(e, 'x')
+		} else {
+			e = strconv.AppendInt(e, int64((at-r.sent)/time.Second), 10)
 		}
-		l = append(l, fmt.Sprintf("%d%s@%s/%d%d", r.piece, peerName(r.peer), age, r.marks, r.last))
+		e = append(e, '/', byte('0'+r.marks), byte('0'+r.last))
+		l = append(l, string(e))
 	}
 	sort.Strings(l)
 	return "[" + strings.Join(l, " ") + "]"
 }
 
 func (s *sys) Key() string {
-	if s.obs == "" {
-		if err := s.invariants("init"); err != nil {
-			return "INIT-FAIL " + err.Error()
+	if !s.obsValid {
+		if err := s.invariants("state"); err != nil {
+			return s.modelString() + "|FAIL " + err.Error()
 		}
 	}
 	return s.modelString() + "|" + s.obs
 }
 
-// recorder notes the class of every distinct (state, op) transition.
-type recorder struct {
-	*sys
-	sink *classSink
-}
-
-func (r recorder) Apply(op string) error {
-	pre := r.sys.Key()
-	err := r.sys.Apply(op)
-	if r.sys.cls != 0 {
-		r.sink.put(pre+"#"+op, r.sys.cls)
-	}
-	return err
-}
-
 func searchConfig(cfg config, sink *classSink, deadline time.Time) bfs.Config {
+	var srch *search
+	if sink != nil {
+		srch = &search{sink: sink}
+	}
 	return bfs.Config{MaxDepth: cfg.depth, Deadline: deadline, New: func() (bfs.System, error) {
-		s, err := newSys(cfg)
-		if err != nil {
-			return nil, err
-		}
-		if sink == nil {
-			return s, nil
-		}
-		return recorder{s, sink}, nil
+		return newSys(cfg, srch)
 	}}
 }
 
@@ -714,6 +757,9 @@ func configs(thorough bool) []config {
 		return []config{
 			{policy: d, limits: [2]int{1, 2}, peers: 2, pieces: 3, prio: []int{2, 1, 1}, depth: 5},
 			{policy: r, limits: [2]int{2, 1}, peers: 2, pieces: 3, prio: []int{2, 1, 1}, depth: 5},
+			{policy: d, limits: [2]int{2, 1}, peers: 2, pieces: 3, prio: []int{2, 1, 1}, depth: 5},
+			{policy: r, limits: [2]int{1, 2}, peers: 2, pieces: 3, prio: []int{1, 1, 2}, depth: 5},
+			{policy: d, limits: [2]int{2, 2}, peers: 3, pieces: 3, prio: []int{2, 1, 1}, allMarks: true, depth: 4},
 		}
 	}
 	return []config{
@@ -727,12 +773,6 @@ func configs(thorough bool) []config {
 
 func main() {
 	vrand.Decider = decide
-	if pf := os.Getenv("C15_PROF"); pf != "" {
-		f, _ := os.Create(pf)
-		pprof.StartCPUProfile(f)
-		defer pprof.StopCPUProfile()
-		defer f.Close()
-	}
 	run := evid.New("C15", "model_checking")
 	run.Rule = "every history up to the depth bound over ReservePieces(peer, candidates in all non-empty subsets of the pieces, endgame in {no,yes}, each answer vector of the default policy's math/rand draws), MarkUnsent/MarkInvalid(peer, piece), Clear(piece), ClearPeer(peer), advance(6s | 11s; timeout 10s) on a real piecerequest.Manager, BFS state-deduplicated on (model multiset of booked requests with capped ages and marks, failed report now/+5s/+11s, PendingPieces of every peer); every transition compared with the reference model. distinct = distinct states per configuration."
 	run.Assume("small-scope: 2-3 peers (q is an origin), 3 pieces, pipeline limits in {1,2}, request ages in {0s, 6s, expired}; an age exactly equal to the timeout is kept out of the alphabet (the text does not decide that boundary)")
@@ -768,6 +808,9 @@ func main() {
 		cc[n] = tot[b]
 	}
 	run.Set("transition_classes", cc)
+	if b, err := json.Marshal(cc); err == nil {
+		fmt.Printf("transition classes: %s\n", b)
+	}
 	if cc["rand_draws_not_as_predicted"] > 0 {
 		run.NotExhaustive(fmt.Sprintf("%d transitions drew random numbers differently from the prediction: rand outcomes not fully enumerated there", cc["rand_draws_not_as_predicted"]))
 	}
@@ -778,7 +821,6 @@ func main() {
 			}
 		}
 	}
-	pprof.StopCPUProfile()
 	run.Finish()
 }
 
